@@ -5,6 +5,7 @@ props = [json.loads(l) for l in open('/verif/properties.jsonl')]
 DST = "deterministic simulation with fault injection: real shuttle crates driven by a controlling Scheduler (SimSched), seeded program/fault generation, "
 claimed = {
  "C01": ("exploration", DST + "replay equality oracle", "seeded search over (program, scheduler, seed); every recorded schedule must replay to the identical decision/draw/event trace and ending through the printed string, and the nondeterminism checker must accept the body", "same-process replay; events logged by the interpreter are the observable behaviour"),
+ "C02": ("exploration", DST + "outcome coverage: model outcome enumeration vs scripted exploration of the runtime's choice tree", "seeded tiny programs; every outcome the runtime produces must be allowed by the reference model, and when the runtime's choice tree for the program was exhausted by scripted schedules every outcome the model requires must have been produced; unreachable outcomes are keyed by the operation kind lacking a choice point", "existential property: only provably unreachable outcomes alarm; programs beyond the leaf budget are inconclusive; known findings F2 (mpsc drop) and F18 (barrier arrival) keyed by call-site kind"),
  "C03": ("exploration", DST + "lockstep powerset reference model (offered sets, results, verdict)", "seeded search over programs x schedules; at every decision the runtime's offered set must equal the reference model's enabled set, and the final verdict (normal end / deadlock with exactly the unfinished tasks) must be explainable by the model", "reference models in harness/src/model.rs written from std documentation; small programs (<= 4 threads)"),
  "C04": ("exploration", DST + "lockstep reference model + holder monitors + differential against std::sync::atomic", "locks: lockstep model and interpreter-level holder counters; poisoning after a caught panic; atomics: every operation result compared with std::sync::atomic replayed in the run's total order, all integer types and bool", "SC only; known finding F4 (poisoned lock: semaphore stays closed) pinned by witnesses"),
  "C05": ("exploration", DST + "lockstep powerset reference model", "condvar/barrier/once/park programs; no lost and no invented wake-up = offered set equals the model's enabled set at every decision; leader and initialiser monitors", "Condvar never wakes spuriously (documented Shuttle choice); park may"),
